@@ -383,11 +383,19 @@ func registryScenario(sc *RScenario, raw []byte, run int) {
 				twin := godi.NewCollection()
 				R.fnReg = map[string]string{}
 				for li := range o.Leaves {
-					opt := leafOption(items, &o.Leaves[li])
-					if opt == nil {
-						continue
+					// the direct calls themselves (not the module builders applied by hand)
+					lf := &o.Leaves[li]
+					var err error
+					switch lf.Kind {
+					case "add":
+						it := items[lf.Item]
+						err = addItem(twin, &it)
+					case "rm":
+						twin.Remove(typeByName(lf.T))
+					case "rmk":
+						twin.RemoveKeyed(typeByName(lf.T), lf.K)
 					}
-					if err := opt(twin); err != nil {
+					if err != nil {
 						break
 					}
 				}
